@@ -31,7 +31,7 @@ def check(pid, text, note, technique, ref):
         "level_note": note,
         "technique": technique,
     }
-STUBS = "Stubbed: kernel sockets, every dial path, the setsockopt calls of the UDP branch (the rest of the *net.UDPConn/SessionUDP/control-message path runs in the instrumented builds through an interface substituted for *net.UDPConn; in the unmodified-tree builds it is a stub). Trusted: testing/synctest (fake clock, quiescence), the Go race detector, the go/ast rewriter that adds scheduling points to a scratch copy (the unmodified tree runs alongside as a cross-check), the small independent oracle code under sim/oracle."
+STUBS = "Stubbed: kernel sockets; the operating system's listen and dial calls (in the instrumented builds listenTCP/listenUDP and the client's three dial sites ask a socket seam of the simulator, so ListenAndServe and the dialling entry points run real code up to that call; in the unmodified-tree builds every listening / dialling entry point is a stub); the setsockopt calls of the UDP branch (the rest of the *net.UDPConn/SessionUDP/control-message path runs in the instrumented builds through an interface substituted for *net.UDPConn; in the unmodified-tree builds it is a stub). Trusted: testing/synctest (fake clock, quiescence), the Go race detector, the go/ast rewriter that adds scheduling points to a scratch copy (the unmodified tree runs alongside as a cross-check), the small independent oracle code under sim/oracle."
 exec(open(os.path.join(ROOT, "tools", "manifest_checks.py")).read())
 for pid in ["C07","C11","C12","C13","C14","C15","C18"]:
     if pid not in CHECKS:
@@ -41,7 +41,7 @@ man = {
  "setup_cmd": "./setup.sh",
  "hooks": {
    "guard": "verifsim",
-   "enable": "no hook is committed to /repo: each check copies /repo's working tree to a mktemp scratch directory, rewrites the copy with sim/cmd/instr (go/ast: yields at goroutine spawn, lock, WaitGroup, channel and select sites; cooperative TryLock loops) and builds that copy with -tags verifsim; the unmodified tree is built and simulated alongside through the seams it already has (Server.Listener/PacketConn, dns.Conn{Conn}, Decorate*, MsgAcceptFunc, fs.FS)",
+   "enable": "no hook is committed to /repo: each check copies /repo's working tree to a mktemp scratch directory, rewrites the copy with sim/cmd/instr (go/ast: yields at goroutine spawn, lock, WaitGroup, channel and select sites; cooperative TryLock loops; an interface for *net.UDPConn; a deterministic free list for sync.Pool; listenTCP/listenUDP and the dial sites of client.go routed through hook variables) and builds that copy with -tags verifsim; the unmodified tree is built and simulated alongside through the seams it already has (Server.Listener/PacketConn, dns.Conn{Conn}, Decorate*, MsgAcceptFunc, fs.FS)",
    "baseline_off_cmd": "cd /repo && go test -vet=off -count=1 -timeout 25m ./...",
    "source_commits": [],
    "add_only": True,
